@@ -198,6 +198,9 @@ func vfFail(id string) {
 	panic(vfStop{"fail"})
 }
 func vfNote(s string) {}
+func vfNative() bool { return true }
+func vfSharedBegin(objs ...interface{}) {}
+func vfSharedEnd() {}
 func vfMapOrder(on bool) {}
 func vfAllocCap(n int, id string) {}
 '''
@@ -251,7 +254,7 @@ def go_pkg_name(rel):
     return rel.rsplit('/', 1)[-1]
 
 
-def native_replay(specs, timeout=600):
+def native_replay(specs, timeout=600, race=False):
     """specs: list of (harness_full_name, json_path). Returns dict json_path -> (status, failed_ids, raw line)."""
     by_pkg = {}
     for h, p in specs:
@@ -283,7 +286,7 @@ def native_replay(specs, timeout=600):
             json.dump({'Replace': repl}, open(ov, 'w'))
             env = dict(GOENV)
             env['VERIF_REPLAY'] = ','.join('%s=%s' % (h.rsplit('.', 1)[-1], p) for h, p in items)
-            r = subprocess.run(['go', 'test', '-vet=off', '-count=1', '-v', '-run', '^TestVerifReplay$', '-overlay', ov, '-timeout', '%ds' % timeout,
+            r = subprocess.run(['go', 'test', '-vet=off', '-count=1', '-v'] + (['-race'] if race else []) + ['-run', '^TestVerifReplay$', '-overlay', ov, '-timeout', '%ds' % timeout,
                                 './' + rel if rel != '.' else '.'], cwd=REPO, env=env, capture_output=True, text=True, timeout=timeout + 60)
             out = r.stdout + r.stderr
             for h, p in items:
@@ -299,6 +302,10 @@ def native_replay(specs, timeout=600):
                 status = rest.split(' ', 1)[0]
                 m = re.search(r'failed=\[([^\]]*)\]', rest)
                 failed = m.group(1).split() if m and m.group(1) else []
+                if race and 'DATA RACE' in out:
+                    # the race detector saw an unsynchronised access while the harness ran the program concurrently
+                    failed.append('c08.unsynchronised-write-to-shared-state')
+                    rest += ' DATA-RACE-REPORTED'
                 results[p] = (status, failed, rest)
         finally:
             shutil.rmtree(tmp, ignore_errors=True)
@@ -408,7 +415,7 @@ def run_property(prop, tier, jobs, meta, seed=0, procs=None):
     replayed = 0
     if specs:
         try:
-            rr = native_replay(specs)
+            rr = native_replay(specs, race=(prop == 'C08'))
         except Exception as e:
             rr = {}
             agg['errors'].append(('replay', str(e)))
